@@ -57,6 +57,8 @@ def cmdServerNick (c : Ctx) (sid : Id) (m : IrcMsg) : Res Ctx := do
   if AMap.contains c.st.nicks (nickToLower p0) then
     return sendSvc c (srv c "433" ["*", p0, "Nickname is already in use"])
   let id : Id := ⟨s.id.id, fnv64 p0⟩
+  if AMap.contains c.st.sessions id then
+    return sendSvc c (srv c "433" ["*", p0, "Nickname is already in use"])
   match createSession c.st id "" s.lastActivity with
   | none => pure (sendSvc c (srv c "NOTICE" [s.ircPrefix.name, "Could not create session for " ++ p0 ++ ": MaxSessions limit reached"]))
   | some st =>
